@@ -26,7 +26,7 @@ ASSUMPTIONS = [
     "mechanisms above are",
     "ply calls t_error / p_error as documented and assigns token.lineno before calling a rule function",
 ]
-TECHNIQUE = 'regex structure analysis per lexer state (re._parser), CFG all-paths-raise, AST rules on raise sites'
+TECHNIQUE = 'regex structure analysis per lexer state (re._parser), CFG all-paths-raise, AST rules on raise sites; mandatory-clause derivability on the LALR grammar of every dialect; nested-repeat (ReDoS) analysis through branches; ignore sets vs line counting'
 
 LEXER = 'pysmi/lexer/smi.py'
 PARSER = 'pysmi/parser/smi.py'
